@@ -48,6 +48,16 @@ structure Hist where
   puts : List (Nat × List UInt8) := []                 -- last datum put
   issued : List Nat := []                              -- ids returned by next_id (also before a clone)
 
+/-- the history-based state as it would be after calls that produce the reference state `r` (used after `merge`,
+    `slice` and scripts, whose internal calls the direct monitors do not see one by one) -/
+def Hist.ofR (r : R) (pairs0 : List (Nat × Nat)) (bound0 issued : List Nat) : Hist :=
+  { pairs := pairs0 ++ r.ids.flatMap (fun v => (r.edg v).map (fun e => (v, e.2))),
+    unread := r.ids.filter (fun v => r.unr v),
+    bound := bound0 ++ r.ids.flatMap (fun v => (r.edg v).flatMap (fun e => [v, e.2])),
+    edges := r.ids.map (fun v => (v, r.edg v)),
+    puts := r.ids.filterMap (fun v => (r.dat v).map (fun d => (v, d.toBytes))),
+    issued := issued }
+
 structure HMon where
   n : Nat
   cap : Nat
@@ -621,7 +631,7 @@ def judgeLine2 (j : JSt) (lineNo : Nat) (opLine obsLine : String) : JSt :=
               let cyc := kept.any (fun x => (m.r.edg x).any (fun e => e.2 ∈ kept ∧ e.2 ≤ x))
               let j := { j with slicesJudged := j.slicesJudged + 1, sliceWithCycle := j.sliceWithCycle + (if cyc then 1 else 0) }
               let j := (j.setMon a { m with origin := if m.origin = "" then "C13" else m.origin }).setMon b
-                { n := m.n, cap := m.cap, r := rb, judged := valid, prevKeys := o.keys, origin := "C13" }
+                { n := m.n, cap := m.cap, r := rb, judged := valid, prevKeys := o.keys, origin := "C13", hist := Hist.ofR rb [] [] [] }
               let j := { j with sliceSpecs := (b, spec) :: j.sliceSpecs.filter (·.1 ≠ b) }
               if o.status ≠ "ok" then j.reject "C13" lineNo s!"slice answered '{obsLine}'"
               else if o.keys ≠ kept then j.reject "C13" lineNo s!"slice holds {showNats o.keys}, reachable along accepted edges are {showNats kept}"
